@@ -955,6 +955,282 @@ def check_uvectors(ctx, d, dasan, rows):
                 ctx.violation("uvector:value:" + r["name"], input=e, expected="(#t 1)" if r["set"] else "#t", observed=i, build=label, replay=rp)
 
 
+
+# ------------------------------------------------------------------------------------------ mini-floats (sexp.c f16 / f8)
+import struct
+from fractions import Fraction
+
+MF_PRELUDE = r"""
+(define (mf-through vec set ref in)   ; in: bytevector of native doubles -> hex of the doubles (ref (set x)); NaN canonical
+  (let* ((n (quotient (bytevector-length in) 8)) (out (make-bytevector (* 8 n) 0)))
+    (do ((i 0 (+ i 1))) ((= i n) (xh out))
+      (set vec 0 (bytevector-ieee-double-native-ref in (* 8 i)))
+      (let ((r (ref vec 0)))
+        (bytevector-ieee-double-native-set! out (* 8 i) (if (= r r) r +nan.0))))))
+(define (mf-refs vec ref)   ; all elements of a uniform vector as doubles, hex
+  (let* ((n (uvector-length vec)) (out (make-bytevector (* 8 n) 0)))
+    (do ((i 0 (+ i 1))) ((= i n) (xh out))
+      (let ((r (ref vec i)))
+        (bytevector-ieee-double-native-set! out (* 8 i) (if (= r r) r +nan.0))))))
+(define (mf-read-write s ref)   ; literal text -> (elements as read) and (elements after write + read again)
+  (let* ((v (read (open-input-string s)))
+         (o (open-output-string)))
+    (write v o)
+    (list (mf-refs v ref) (mf-refs (read (open-input-string (get-output-string o))) ref))))
+"""
+MF_LIBS = "(srfi 160 prims) (only (srfi 160 f8) make-f8vector) (only (srfi 160 f16) make-f16vector)"
+NANC = 0x7FF8000000000000
+SIGN = 1 << 63
+
+
+def dbits(x):
+    return struct.unpack("<Q", struct.pack("<d", x))[0]
+
+
+def bitsd(b):
+    return struct.unpack("<d", struct.pack("<Q", b))[0]
+
+
+def is_nan_bits(b):
+    return (b & (SIGN - 1)) > 0x7FF0000000000000
+
+
+def canon_f64(tok):
+    """model / harness answer token ('nan' or hex) -> canonical bits"""
+    return NANC if tok == "nan" else int(tok, 16)
+
+
+def half_val(h):
+    """the value sexp.c assigns to a half pattern (Fraction), or 'inf' / '-inf' / 'nan' for the three special patterns"""
+    if h == 0x7C00: return "inf"
+    if h == 0xFC00: return "-inf"
+    if h == 0x7FFF: return "nan"
+    s, e, m = h >> 15, (h >> 10) & 31, h & 1023
+    v = Fraction(m, 1 << 24) if e == 0 else Fraction(1024 + m) * Fraction(2) ** (e - 25)
+    return -v if s else v
+
+
+def quarter_val(q):
+    """1.5.2, bias 15; 124 = infinity, 125..127 NaN"""
+    r = q & 127
+    if r > 124: return "nan"
+    if r == 124: return "-inf" if q & 128 else "inf"
+    e, m = r >> 2, r & 3
+    v = Fraction(m, 1 << 16) if e == 0 else Fraction(4 + m) * Fraction(2) ** (e - 17)
+    return -v if q & 128 else v
+
+
+def sch_double(b):
+    """Scheme literal denoting exactly the double with bits b"""
+    if is_nan_bits(b): return "+nan.0"
+    x = bitsd(b)
+    if x == float("inf"): return "+inf.0"
+    if x == float("-inf"): return "-inf.0"
+    return repr(x)
+
+
+def mf_test_doubles(ctx, h2d, q2d):
+    """doubles (bit patterns) aimed at every case split of the two encoders; h2d / q2d = the model's decode tables"""
+    rng = ctx.rng
+    half, quarter = [], []
+    step = 1 if ctx.thorough else 5
+    hot = set(range(0, 48)) | set(range(0x1F0, 0x212)) | set(range(0x3F0, 0x412)) | set(range(0x7BF0, 0x7C10)) | set(range(0x7FE0, 0x7FFF))
+    off = rng.randrange(step)
+    for a in range(0, 0x7FFE):
+        if not (a in hot or a % step == off):
+            continue
+        x, y = h2d[a], h2d[a + 1]
+        if x == NANC or y == NANC or x >= 0x7FF0000000000000 or y >= 0x7FF0000000000000:
+            continue
+        mid = dbits((bitsd(x) + bitsd(y)) / 2)        # exact: adjacent halves have <= 12 significant bits
+        for b in (mid, mid - 1, mid + 1, mid - (1 << 29), mid + (1 << 29), x + 1, y - 1, x + (1 << 29), y - (1 << 29)):
+            half.append(b)
+            half.append(b | SIGN)
+    special = [0, 1, 0x000FFFFFFFFFFFFF, 0x0010000000000000, 0x7FEFFFFFFFFFFFFF, 0x7FF0000000000000, 0x7FF8000000000000, 0x7FF0000000000001, 0xFFF8000000000001,
+               dbits(2.0 ** -24), dbits(2.0 ** -25), dbits(2.0 ** -25) - 1, dbits(2.0 ** -25) + 1, dbits(2.0 ** -25) - (1 << 29), dbits(2.0 ** -26), dbits(2.0 ** -14), dbits(2.0 ** -14) - 1,
+               dbits(2.0 ** -15), dbits(2.0 ** -15) - 1, dbits(2.0 ** -15) + 1, dbits(3.0 * 2.0 ** -16), dbits(65504.0), dbits(65519.99), dbits(65520.0), dbits(65520.0) - 1, dbits(65520.0) - (1 << 29),
+               dbits(65536.0), dbits(70000.0), dbits(131008.0), dbits(131039.0), dbits(131040.0), dbits(131072.0), dbits(1e10), dbits(1e300), dbits(3.4028234663852886e38), dbits(3.5e38),
+               dbits(2.0 ** -126), dbits(2.0 ** -149), dbits(1.0), dbits(1.5), dbits(0.1), dbits(1.0 / 3.0), dbits(1000.5), dbits(2049.0), dbits(2051.0), dbits(57344.0), dbits(57345.0), dbits(61440.0), dbits(61441.0),
+               dbits(2.0 ** -16), dbits(2.0 ** -17), dbits(2.0 ** -17) + 1, dbits(2.0 ** -17) - 1]
+    for b in special:
+        for bb in (b, b ^ SIGN):
+            half.append(bb)
+            quarter.append(bb)
+    for _ in range(3000 if not ctx.thorough else 60000):     # random: exponent around the half range, random mantissa, some with few bits
+        e = rng.choice([rng.randrange(1023 - 30, 1023 + 20), rng.randrange(1023 - 27, 1023 - 12), rng.randrange(0, 2047)])
+        m = rng.getrandbits(52) if rng.random() < 0.6 else (rng.getrandbits(14) << 38) | (rng.getrandbits(2) << rng.randrange(0, 38))
+        b = (rng.getrandbits(1) << 63) | (e << 52) | m
+        half.append(b)
+        quarter.append(b)
+    for i in range(0, 123):
+        x, y = q2d[i], q2d[i + 1]
+        mid = dbits((bitsd(x) + bitsd(y)) / 2)
+        for b in (mid, mid - 1, mid + 1, x + 1, y - 1, mid + 1000, mid - 1000):
+            quarter.append(b)
+            quarter.append(b | SIGN)
+    return half, quarter
+
+
+def check_minifloats(ctx, d, exe):
+    """K-inner: the four C functions of the scratch build's libchibi-scheme (harness/embed_c19_half.c) vs the extracted model on bit patterns:
+    every half / quarter pattern decoded, every decoded value re-encoded, doubles straddling every rounding boundary; K-outer: the same through
+    f16vector-set!/ref, f8vector-set!/ref and the #f16( ) / #f8( ) reader and writer of the real binary"""
+    here = os.path.dirname(os.path.abspath(__file__))
+    try:
+        emb = B.cc_embed(d, os.path.join(here, "..", "harness", "embed_c19_half.c"), os.path.join(d, "embed_c19_half"))
+    except B.BuildError as e:
+        ctx.broken("minifloat:harness", "harness/embed_c19_half.c does not build against the scratch tree: %s" % str(e)[-300:])
+        return
+
+    def harness(lines):
+        r = subprocess.run([emb], input="\n".join(lines) + "\n", capture_output=True, text=True, timeout=600, env=B.chibi_env(d))
+        if r.returncode != 0:
+            return None, "rc %d %s" % (r.returncode, r.stderr[-300:])
+        return r.stdout.split("\n")[:-1], None
+
+    mo = run_model(exe, ["allh2d", "allq2d"])
+    io, err = harness(["allh2d", "allq2d"])
+    if err:
+        ctx.violation("minifloat:crash:decode-sweep", input="allh2d allq2d", observed=err, replay="%s <<< allh2d" % emb)
+        return
+    mh, mq = [canon_f64(t) for t in mo[0].split()], [canon_f64(t) for t in mo[1].split()]
+    ih, iq = [canon_f64(t) for t in io[0].split()], [canon_f64(t) for t in io[1].split()]
+    rp_set = "echo '(import (scheme base) (scheme write) %s) (let ((v (make-%svector 1 0))) (%svector-set! v 0 %s) (write (%svector-ref v 0)))' | chibi-scheme /dev/stdin"
+    # ---- decoders, exhaustively; the oracle is the format's formula (half_val / quarter_val), not the model
+    for name, mt, it, val in (("half", mh, ih, half_val), ("quarter", mq, iq, quarter_val)):
+        t = "f16" if name == "half" else "f8"
+        for p, (m, i) in enumerate(zip(mt, it)):
+            ctx.count(1, key=("mf-dec", name, p), nontrivial=True)
+            exp = val(p)
+            if isinstance(exp, Fraction):
+                ok = i != NANC and (i & (SIGN - 1)) < 0x7FF0000000000000 and Fraction(bitsd(i)) == exp and (i >> 63) == (p >> (15 if name == "half" else 7))
+            else:
+                ok = i == {"inf": 0x7FF0000000000000, "-inf": 0xFFF0000000000000, "nan": NANC}[exp]
+            if not ok:
+                ctx.violation("minifloat:%s-to-double:wrong-value" % name, input="pattern 0x%x" % p, expected="%s" % (float(exp) if isinstance(exp, Fraction) else exp),
+                              observed="bits %016x = %r" % (i, bitsd(i)), replay="echo '%s %x' | %s   # = (%svector-ref v 0) of a vector holding that pattern" % ("h2d" if name == "half" else "q2d", p, emb, t))
+            elif m != i:
+                ctx.broken("minifloat:model-vs-code:%s-to-double" % name, "pattern 0x%x: model %016x, code %016x (code agrees with the format)" % (p, m, i))
+    if len(mh) != 65536 or len(ih) != 65536 or len(mq) != 256 or len(iq) != 256:
+        ctx.broken("minifloat:sweep-size", "decode sweep returned %d/%d/%d/%d values" % (len(mh), len(ih), len(mq), len(iq)))
+        return
+    # ---- encoders: every decoded value + boundary / special / random doubles
+    half, quarter = mf_test_doubles(ctx, mh, mq)
+    hreq = [("d2h", b, p) for p, b in enumerate(mh)] + [("d2h", b, None) for b in half]
+    qreq = [("d2q", b, p) for p, b in enumerate(mq)] + [("d2q", b, None) for b in quarter]
+    reqs = hreq + qreq
+    lines = ["%s %x" % (op, b) for op, b, _ in reqs]
+    mo = run_model(exe, lines)
+    io, err = harness(lines)
+    if err:
+        ctx.violation("minifloat:crash:encode", input="%d doubles" % len(lines), observed=err, replay="%s < requests" % emb)
+        return
+    hv = [None] * 65536
+    for h in range(65536):
+        v = half_val(h)
+        hv[h] = float(v) if isinstance(v, Fraction) else None
+    qv = [None] * 256
+    for q in range(256):
+        v = quarter_val(q)
+        qv[q] = float(v) if isinstance(v, Fraction) else None
+    for (op, b, p), m, i in zip(reqs, mo, io):
+        ctx.count(1, key=("mf-enc", op, b), nontrivial=True)
+        name, t = ("half", "f16") if op == "d2h" else ("quarter", "f8")
+        got = int(i, 16)
+        rp = rp_set % (MF_LIBS, t, t, sch_double(b), t)
+        if p is not None:       # b is the decoding of pattern p: the round trip itself (no model involved)
+            canon = p if op == "d2h" else (127 if (p & 127) > 124 else 0 if p == 128 else p)
+            if got != canon:
+                ctx.violation("minifloat:%s-roundtrip" % name, input="pattern 0x%x = double %r (bits %016x)" % (p, bitsd(b), b), expected="0x%x" % canon, observed="0x%x" % got, replay=rp)
+                continue
+        # rounds to a nearest representable value?  exact oracle from the format's formula, inside the range where the format is plain IEEE
+        # (slack: sexp_double_to_half first rounds to binary32); beyond the range only model = code is checked
+        mag = b & (SIGN - 1)
+        tab, top, lim = (hv, 0x7BFF, 65520.0) if op == "d2h" else (qv, 123, 57344.0)
+        if mag < 0x7FF0000000000000 and abs(bitsd(b)) < lim and p is None:
+            x = bitsd(b)
+            sgn = (0x8000 if op == "d2h" else 128) if (b >> 63) else 0
+            gm = got - sgn
+            ok = 0 <= gm <= top + 1 and (got == sgn + top + 1 or tab[got] is not None)
+            if ok and gm <= top:
+                err = abs(tab[got] - x)
+                slack = abs(x) / (1 << 23)
+                for nb in (gm - 1, gm + 1):
+                    if 0 <= nb <= top and abs(tab[sgn + nb] - x) + slack < err:
+                        ok = False
+            elif ok:            # rounded up to the infinity pattern: only from the upper half of the last interval
+                ok = abs(x) >= (tab[top] + lim) / 2 - abs(x) / (1 << 23)
+            if x == 0 and op == "d2q":
+                ok = got == 0
+            if not ok:
+                ctx.violation("minifloat:double-to-%s:not-nearest" % name, input="double %r (bits %016x)" % (x, b), expected="a nearest representable %s (model: 0x%s)" % (name, m), observed="0x%x = %r" % (got, tab[got] if 0 <= got < len(tab) else None), replay=rp)
+                continue
+        if m != i:
+            ctx.broken("minifloat:model-vs-code:" + op, "double bits %016x: model 0x%s, code 0x%x" % (b, m, got))
+    ctx.sample(dict(kind="minifloat", request=lines[0x0200], model=mo[0x0200], impl=io[0x0200]))
+    # ---- K-outer: f16vector-set!/ref and f8vector-set!/ref of the real binary on the same doubles; reader / writer of the literals
+    exprs, meta = [], []
+    def through(t, bits, label, exp=None):
+        if exp is None:
+            lines = ["%s %x" % ("d2h" if t == "f16" else "d2q", b) for b in bits]
+            enc = run_model(exe, lines)
+            dec = run_model(exe, ["%s %s" % ("h2d" if t == "f16" else "q2d", e) for e in enc])
+            exp = [canon_f64(x) for x in dec]
+        for k in range(0, len(bits), 8192):
+            chunk = bits[k:k + 8192]
+            exprs.append('(mf-through (make-%svector 1 0) %svector-set! %svector-ref (hx "%s"))' % (t, t, t, b"".join(struct.pack("<Q", b) for b in chunk).hex()))
+            meta.append(("through", t, chunk, exp[k:k + 8192], label))
+        return exp
+    # representable values must come back unchanged (spec, not model): halves all; quarters up to NaN collapse and -0 -> +0
+    through("f16", ih, "every-pattern", list(ih))
+    through("f16", half[:20000] if not ctx.thorough else half, "boundaries")
+    through("f8", iq, "every-pattern", [iq[127 if (q & 127) > 124 else 0 if q == 128 else q] for q in range(256)])
+    through("f8", quarter[:6000] if not ctx.thorough else quarter, "boundaries")
+    # literals: 64 values per literal
+    pool = [b for b in (mh[::97] + half[:600:3]) if not is_nan_bits(b)]
+    for t, pl in (("f16", pool), ("f8", [b for b in (mq + quarter[:300:3]) if not is_nan_bits(b)])):
+        lines = ["%s %x" % ("d2h" if t == "f16" else "d2q", b) for b in pl]
+        enc = run_model(exe, lines)
+        dec = [canon_f64(x) for x in run_model(exe, ["%s %s" % ("h2d" if t == "f16" else "q2d", e) for e in enc])]
+        enc2 = run_model(exe, ["%s %x" % ("d2h" if t == "f16" else "d2q", b) for b in dec])      # the written text is read again: -0 of a quarter becomes +0
+        dec2 = [canon_f64(x) for x in run_model(exe, ["%s %s" % ("h2d" if t == "f16" else "q2d", e) for e in enc2])]
+        for k in range(0, len(pl), 64):
+            chunk = pl[k:k + 64]
+            exprs.append('(mf-read-write "#%s(%s)" %svector-ref)' % (t, " ".join(sch_double(b) for b in chunk), t))
+            meta.append(("literal", t, chunk, (dec[k:k + 64], dec2[k:k + 64]), "reader-writer"))
+    io = scm.run_cases(d, exprs, prelude_extra=PRELUDE + MF_PRELUDE, imports=IMPORTS + "\n(import (scheme read) " + MF_LIBS + ")", timeout=300, chunk=8)
+    for e, (kind, t, chunk, exp, label), i in zip(exprs, meta, io):
+        exp, exp2 = exp if kind == "literal" else (exp, exp)
+        ctx.count(len(chunk), key=("mf-outer", kind, t, label, chunk[0], len(chunk)), nontrivial=True)
+        if bad(i) or i.startswith("ERR"):
+            ctx.violation("minifloat:%s:%s:crash-or-error" % (t, kind), input=e[:200], observed=(i or "")[:300], replay="chibi-scheme with " + e[:300])
+            continue
+        outs = [i] if kind == "through" else i.strip("()").split()
+        for which, o in enumerate(outs):
+            ex = exp if which == 0 else exp2
+            gl = list(struct.unpack("<%dQ" % len(chunk), bytes.fromhex(o[1:]))) if o.startswith("x") and len(o) == 1 + 16 * len(chunk) else None
+            if gl is not None:
+                gl = [NANC if is_nan_bits(g) else g for g in gl]       # sign and payload of a NaN are not compared
+                if gl == ex:
+                    continue
+            j = next((j for j in range(len(chunk)) if gl[j] != ex[j]), 0) if gl else 0
+            gj = gl[j] if gl else None
+            exp = ex
+            what = "set!-then-ref" if kind == "through" else ("read" if which == 0 else "write-then-read")
+            if kind == "through":
+                rp = rp_set % (MF_LIBS, t, t, sch_double(chunk[j]), t)
+            else:
+                rp = "echo '(import (scheme base) (scheme read) (scheme write) %s) (write (%svector-ref (read (open-input-string \"#%s(%s)\")) 0))' | chibi-scheme /dev/stdin" % (MF_LIBS, t, t, sch_double(chunk[j]))
+            # a representable value that does not come back is the round-trip clause itself
+            ctx.violation("minifloat:%s:%s:%s" % (t, what, "representable-value-changed" if chunk[j] == exp[j] else "differs-from-model"),
+                          input="double %r (bits %016x)" % (bitsd(chunk[j]), chunk[j]), expected="%r (bits %016x)" % (bitsd(exp[j]), exp[j]),
+                          observed=("%r (bits %016x)" % (bitsd(gj), gj)) if gj is not None else o[:80], replay=rp)
+            break
+
+def check_csv(ctx, d, exe):
+    pass
+
+
 # ------------------------------------------------------------------------------------------ JSON
 MAXFIX = (1 << 62) - 1
 ESC_CHARS = [0x22, 0x5c, 0x2f, 8, 12, 10, 13, 9, 0, 1, 0x1f, 0x20, 0x7e, 0x7f, 0x80, 0xff, 0x7ff, 0x800, 0xd7ff, 0xe000, 0xfffd, 0xffff,
@@ -1180,6 +1456,8 @@ def run(ctx):
     from gen import c19_accessors
     table, _others = c19_accessors.regen(ctx)
     uvrows = c19_accessors.regen_uv(ctx)
+    from gen import c19_half
+    c19_half.regen(ctx)
     check_accessor_exports(ctx, table)
     ctx.coq_obligations("Properties_C19")
     d = ctx.build("default")
@@ -1214,10 +1492,15 @@ def run(ctx):
         check_accessors(ctx, d, exe, table, dasan)
         check_uvectors(ctx, d, dasan, uvrows)
     t3 = time.time()
+    if on("mf"):
+        check_minifloats(ctx, d, exe)
+    if on("csv"):
+        check_csv(ctx, d, exe)
+    t3b = time.time()
     if on("json"):
         check_json(ctx, d, exe, dasan)
     t5 = time.time()
-    ctx.note("wall seconds: base64 %.1f, base64 ports/header %.1f, qp + entry points %.1f, uri + asan build %.1f, accessors (default+asan) %.1f, json %.1f" % (t1 - t0, t1b - t1, t2 - t1b, t4 - t2, t3 - t4, t5 - t3))
+    ctx.note("wall seconds: base64 %.1f, base64 ports/header %.1f, qp + entry points %.1f, uri + asan build %.1f, accessors (default+asan) %.1f, mini-floats + csv %.1f, json %.1f" % (t1 - t0, t1b - t1, t2 - t1b, t4 - t2, t3 - t4, t3b - t3, t5 - t3b))
     ctx.assume("exported entry points NOT modelled and NOT exercised: (chibi csv) (whole library), (chibi json) make-json-reader, (chibi uri) uri->string / string->uri / "
                "string->path-uri / make-uri / uri-with-* / uri-resolve / uri-query->alist / uri-alist->query (the last two only call uri-encode / uri-decode, which are modelled), "
                "(scheme bytevector) string->utf16 / utf16->string / string->utf32 / utf32->string / bytevector->uint-list and friends, the SRFI 160 library above its primitive "
